@@ -69,7 +69,7 @@ Parse(bytes) ==
                    huge == ExtLen(b1) = 8 /\ Huge8(ext)
                    n == IF ExtLen(b1) = 0 THEN b1 % 128 ELSE IF ExtLen(b1) = 2 THEN Val2(ext) ELSE IF huge THEN 0 ELSE Val8(ext)
                    k == IF b1 >= 128 THEN SubSeq(bytes, hl - 3, hl) ELSE <<0, 0, 0, 0>>
-               IN IF huge \/ Len(bytes) < hl + n THEN [complete |-> FALSE, f |-> NoFrame, used |-> 0]
+               IN IF huge \/ Len(bytes) - hl < n THEN [complete |-> FALSE, f |-> NoFrame, used |-> 0]
                   ELSE [complete |-> TRUE, used |-> hl + n,
                         f |-> [fin |-> Bit(b0, 128), rsv |-> <<Bit(b0, 64), Bit(b0, 32), Bit(b0, 16)>>, op |-> b0 % 16,
                                mask |-> Bit(b1, 128), key |-> k, len |-> n,
@@ -109,7 +109,7 @@ EncAlgo(f) ==
       lim16 == IF "Len16UpTo65536" \in Mut THEN 65537 ELSE 65536
       lenb == IF f.len < lim7 THEN <<f.mask * 128 + f.len>>
               ELSE IF f.len < lim16 THEN <<f.mask * 128 + 126>> \o BE2(f.len % 65536)
-              ELSE <<f.mask * 128 + 127>> \o BE8(f.len)
+              ELSE <<(IF "Mask64Dropped" \in Mut THEN 0 ELSE f.mask * 128) + 127>> \o BE8(f.len)
       keyb == IF f.mask = 1 \/ "KeyAlways" \in Mut THEN f.key ELSE <<>>
   IN <<b0>> \o lenb \o keyb \o f.payload
 
@@ -159,7 +159,10 @@ Dec_Len16 ==
 Dec_Len64 ==
   /\ res = "run" /\ phase = "len64" /\ Avail >= 8
   /\ cons' = cons + 8
-  /\ IF Huge8(Take(8))             \* more than any stream holds: the payload read can only fail
+  /\ IF "Len64Low32" \in Mut       \* plausible bug: the 64-bit length narrowed to its low 32 (here 31) bits
+     THEN LET b == Take(8) IN
+          fr' = [fr EXCEPT !.len = Val8(<<0, 0, 0, 0, b[5] % 128, b[6], b[7], b[8]>>)] /\ phase' = AfterLen(fr.mask) /\ res' = res
+     ELSE IF Huge8(Take(8))        \* more than any stream holds: the payload read can only fail
      THEN fr' = NoFrame /\ phase' = "done" /\ res' = "ReadError"
      ELSE fr' = [fr EXCEPT !.len = Val8(Take(8))] /\ phase' = AfterLen(fr.mask) /\ res' = res
   /\ UNCHANGED <<wire, sent, eof>>
